@@ -11,7 +11,7 @@ from proto import ET, dec_q, dec_tens, proj_close_nn, run_driver
 from props.c16 import AFFINE3, polygons, vt
 
 ID = "C17"
-LEAN_FILES = ["Geo/Props/C17.lean", "Geo/Props/C17b.lean"]
+LEAN_FILES = ["Geo/Props/C17.lean", "Geo/Props/C17b.lean", "Geo/Props/C17c.lean"]
 RULE = ("simple lattice polygons (3-5 vertices, convex and not): area = |shoelace|/2 and centroid = area centroid (exact S-layer), for every "
         "rotation / reversal of the vertex list, translated far from the origin, embedded in 3-space under rational affine maps (area = "
         "|vector area|/2) and after Pythagorean rotations + translations applied to the object (cached plane must follow); Simplex.volume "
@@ -361,7 +361,33 @@ def expand_dims_measures_stream(ctx, n):
                 ctx.disagree("C17:expand_dims:area", desc, exp.tolist(), r[1:3] if r[0] != "ok" else r[1].tolist(), replay=[desc])
 
 
+def circumcenter_model_stream(ctx, n):
+    """the executable circumcentre construction of Geo/Constructions.lean (about which T17_circumcenter_equidistant is) against
+    Triangle.circumcenter, on lattice triangles of the plane, compared projectively"""
+    import geometer as g
+    from proto import proj_close
+    rng = ctx.rng
+    reqs, todo = [], []
+    for k in range(n):
+        pts = [[Fraction(rng.randint(-5, 5)), Fraction(rng.randint(-5, 5)), Fraction(1)] for _ in range(3)]
+        (a0, a1, _), (b0, b1, _), (c0, c1, _) = pts
+        if (b0 - a0) * (c1 - a1) - (b1 - a1) * (c0 - a0) == 0:
+            continue
+        reqs.append("m.circumcenter2 " + " ".join(vt(p) for p in pts))
+        todo.append(pts)
+    for pts, ans in zip(todo, run_driver(reqs)):
+        desc = f"circumcenter of the triangle {[[str(x) for x in p[:2]] for p in pts]}"
+        ctx.case(desc)
+        ctx.count("model:circumcenter2")
+        T = g.Triangle(*[g.Point(float(p[0]), float(p[1])) for p in pts])
+        r = call_impl(lambda: T.circumcenter)
+        a = ans.split(" ")
+        if a[0] != "ok" or r[0] != "ok" or not proj_close(dec_tens(a[1]), np.asarray(r[1].array), rtol=1e-9):
+            ctx.disagree("C17:model:circumcenter2", desc, ans[:200], r[1:3] if r[0] != "ok" else np.asarray(r[1].array).tolist(), replay=[desc])
+
+
 def correspondence(ctx):
+    circumcenter_model_stream(ctx, ctx.budget(60, 600))
     expand_dims_measures_stream(ctx, ctx.budget(15, 150))
     repeated_vertex_eq_stream(ctx, ctx.budget(30, 300))
     from props import c03
